@@ -885,7 +885,9 @@ def _lookup_spec(lid):
     fac = LOOPSPEC.get(lid)
     if fac is not None or fp is None:
         return fac
-    cands = [k for k in LOOPSPEC if k.split('#')[1:2] == [fp] and k.rsplit('#', 1)[-1] == str(dyn)]
+    same = sorted(k for k in LOOPSPEC if k.split('#')[1:2] == [fp])
+    # (the function may be called several times on one path - an earlier call, then the call under test - hence the modulus)
+    cands = [k for k in same if k.rsplit('#', 1)[-1] == str(dyn % len(same))] if same else []
     if len(cands) == 1:
         c.note('loop %s bound by shape to the invariant registered for %s' % (lid, cands[0]))
         return LOOPSPEC[cands[0]]
